@@ -1,4 +1,5 @@
 import Bng.Map
+import Bng.Model.Decoders
 /-
   Model of pkg/pppoe/server.go: the PPPoE access concentrator's discovery and session dispatch
   (handleDiscovery/handlePADI/handlePADR/handlePADT, handleSession → handleLCP/handlePAP/handleIPCP/
@@ -74,14 +75,10 @@ def poolAddrs (bits : Nat) : List Nat :=
 def init (radius : Bool) (bits : Nat) : Srv :=
   { radius := radius, sessions := [], nextID := 1, avail := poolAddrs bits, alloc := [], serialCtr := 0 }
 
-/-- the id search of SessionManager.CreateSession -/
-def findId (sessions : AMap Nat Sess) : Nat → Nat → Nat
-  | _, 0 => 0
-  | id, fuel + 1 =>
-    if (AMap.lookup sessions id).isSome then
-      let n := (id + 1) % 65536
-      findId sessions (if n = 0 then 1 else n) fuel
-    else id
+/-- SessionManager.CreateSession's id search (the model shared with C09/C20: `Decoders.createSession`,
+    with the "no free session ID" guard and the skip of the reserved id 0) -/
+def newId (s : Srv) : Decoders.CreateOut :=
+  (Decoders.createSession (fun i => (AMap.keys s.sessions).contains i) (AMap.keys s.sessions).length s.nextID).1
 
 /-- IPPool.Allocate: the session that already holds an address keeps it -/
 def poolAllocate (s : Srv) (serial : Nat) : Srv × Option Nat :=
@@ -115,14 +112,15 @@ def step (s : Srv) : In → Srv × List Out
   | .padi m => (s, [.pado m])
   | .padr m cookie =>
     if !cookie then (s, [])
-    else if s.sessions.length ≥ 65535 then (s, [])
     else
-      let id := findId s.sessions s.nextID 65536
-      let x : Sess := { id := id, mac := m, state := .lcp, authed := false, ip := none,
-                        serial := s.serialCtr, everAuthed := false }
-      ({ s with sessions := AMap.insert s.sessions id x, nextID := (id + 1) % 65536,
-                serialCtr := s.serialCtr + 1 },
-       [.pads id m, .lcpreq id m])
+      match newId s with
+      | .got id nx =>
+        let x : Sess := { id := id, mac := m, state := .lcp, authed := false, ip := none,
+                          serial := s.serialCtr, everAuthed := false }
+        ({ s with sessions := AMap.insert s.sessions id x, nextID := nx,
+                  serialCtr := s.serialCtr + 1 },
+         [.pads id m, .lcpreq id m])
+      | _ => (s, [])       -- table full (the search cannot spin: `Decoders.createSession_spec`)
   | .padt m sid =>
     match ownerGate s m sid with
     | none => (s, [])
